@@ -13,7 +13,8 @@ ops (address texts are hex of their UTF-8 bytes, `-` = empty text):
   prod <active> <txv>|<txv>...              -> take | skip
   pool <reach 0|1> <base> <txv>;<addrOk 0|1>;<inner txv|none>|...    -> accepted | blocked | other
   delay <txv>                               -> cached | blocked
-txv = <from>/<to>/<realTo>/<evm>,  evm = `n` | <contract text>:<para raw hex>
+txv = <from>/<to>/<realTo>/<execer>/<payload>,  payload = `n` (does not decode as an EVM action) | <contract text>:<para raw hex>
+  realexec <execer text>                    -> real executor name (hex)
 -/
 
 def text? (h : String) : Option (List Char) := do
@@ -29,7 +30,7 @@ def evm? (s : String) : Option (Option Evm) :=
 
 def txv? (s : String) : Option TxV :=
   match s.splitOn "/" with
-  | [f, t, r, e] => do pure { sender := ← text? f, to := ← text? t, realTo := ← text? r, evm := ← evm? e }
+  | [f, t, r, x, e] => do pure { sender := ← text? f, to := ← text? t, realTo := ← text? r, execer := ← text? x, payload := ← evm? e }
   | _ => none
 
 def ty? (s : String) : Option Ty :=
@@ -57,6 +58,10 @@ def step (set : List Raw) (line : String) : List Raw × String :=
     | some ts => match mkSet ts with
       | none => (set, "panic")
       | some s => (s, "ok")
+  | ["realexec", t] =>
+    match text? t with
+    | none => (set, "bad-op")
+    | some t => (set, toHexOrDash (String.ofList (realExecName t)).toUTF8.toList)
   | ["parse", t] =>
     match text? t with
     | none => (set, "bad-op")
